@@ -50,9 +50,10 @@ InputsOf(t) == [k \in 1..Len(t.inputs) |-> InVal(t.inputs[k])]
 FlagSet(t) == {t.flags[k] : k \in 1..Len(t.flags)}
 
 Start(t) ==
-    LET tree == ParseText(t.text)
+    LET tree == ParseText(t.text)        \* (TLC evaluates LET definitions lazily: not parsed unless needed)
     IN IF t.ev[Len(t.ev)].raised \in {"budget", "timeout", "RecursionError"}
        THEN [status |-> "undefined", why |-> "impl-" \o t.ev[Len(t.ev)].raised]     \* not evaluated: do not run the model
+       ELSE IF Len(t.text) > 400 THEN [status |-> "undefined", why |-> "program-too-long"]
        ELSE IF AnyError(tree) THEN [status |-> "undefined", why |-> "parse-error"]
        ELSE IF \E k \in 1..Len(t.inputs) : HasU(InVal(t.inputs[k])) THEN [status |-> "undefined", why |-> "input"]
        ELSE ToProbe(InitMachine(tree, InputsOf(t), FlagSet(t)))
